@@ -50,6 +50,7 @@ type script struct {
 	AuthErr  bool
 	AuthWait bool
 	URLErr   bool
+	Texp     bool // the request timeout is over before the exchange starts (negative / vanishing SetTimeout)
 	Src      [2]srcFault
 	TFault   string
 	SrvKind  string
@@ -63,7 +64,7 @@ func scriptOf(m M) script {
 	s := script{
 		Payload: drv.Str(m["payload"]), Fields: drv.Int(m["fields"]), NFiles: drv.Int(m["nfiles"]),
 		Reuse: drv.Bool(m["reuse"]), Werr: drv.Str(m["werr"]), Auth: drv.Str(m["auth"]),
-		AuthErr: drv.Bool(m["autherr"]), AuthWait: drv.Bool(m["authwait"]), URLErr: drv.Bool(m["urlerr"]),
+		AuthErr: drv.Bool(m["autherr"]), AuthWait: drv.Bool(m["authwait"]), URLErr: drv.Bool(m["urlerr"]), Texp: drv.Bool(m["texp"]),
 		TFault: drv.Str(m["tfault"]), Cancel: drv.Str(m["cancel"]), Reader: drv.Str(m["reader"]),
 	}
 	for i, x := range drv.List(m["src"]) {
@@ -91,7 +92,7 @@ func (s script) nSources() int {
 func (s script) needsDeadline() bool { return s.SrvKind == "stall" || s.AuthWait }
 
 func (s script) hasFault() bool {
-	return s.Werr != "none" || s.AuthErr || s.AuthWait || s.URLErr || s.Src[0].Kind != "none" || s.Src[1].Kind != "none" ||
+	return s.Werr != "none" || s.AuthErr || s.AuthWait || s.URLErr || s.Texp || s.Src[0].Kind != "none" || s.Src[1].Kind != "none" ||
 		s.TFault != "none" || s.SrvKind != "none" || s.Cancel != "none"
 }
 
@@ -319,6 +320,13 @@ func (t scriptedRT) RoundTrip(req *http.Request) (*http.Response, error) {
 			req.Body.Close()
 		}
 	}
+	if e.s.Texp {
+		// a slow server: by the time anything could be answered the (already spent) request timeout has certainly fired
+		select {
+		case <-ctx.Done():
+		case <-time.After(slowServerMs * time.Millisecond):
+		}
+	}
 	if err := ctx.Err(); err != nil {
 		closeBody()
 		return nil, err
@@ -544,6 +552,8 @@ func setDefaultTimeout() {
 	defaultOnce.Do(func() { client.DefaultTimeout = defaultTimeoutMs * time.Millisecond })
 }
 
+const slowServerMs = 300
+
 const (
 	slackRetryMs = 700
 	stallCapMs   = 2500 // a harness stall gives up this long after the effective deadline (> SlackMs of the trace spec)
@@ -647,6 +657,14 @@ func runCallOnce(d M) (res M) {
 			}
 		case "zero":
 			if err := r.SetTimeout(0); err != nil {
+				return err
+			}
+		case "negative": // e.g. time.Until(a budget that is already spent)
+			if err := r.SetTimeout(-3 * time.Second); err != nil {
+				return err
+			}
+		case "tiny":
+			if err := r.SetTimeout(time.Nanosecond); err != nil {
 				return err
 			}
 		}
